@@ -652,7 +652,7 @@ pub fn families(id: &str, quick: bool) -> Vec<Family> {
                         [3u64, 4, 7].iter().flat_map(|t| [0u64, 2].into_iter().map(move |j| (ArrSpec::Sporadic { t: *t, j }, 1u64))).collect(), sups.clone()));
                     f.extend(indep_family(&format!("{nm} T2..12 J<=3 C<=2"), Some(bw), vec![(1, 1), (0, 2), (2, 0)], grid(2, 12, 3, 2, true), sups.clone()));
                     f.extend(indep_family(&format!("{nm} T{{3,4,6,8,12}} J<=2 C<=2"), Some(bw), vec![(1, 2), (2, 1), (0, 3)],
-                        [3u64, 4, 6, 8, 12].iter().flat_map(|t| (0..=2u64).flat_map(move |j| (1..=2u64).map(move |c| (ArrSpec::Sporadic { t: *t, j }, c)))).collect(), sups.clone()));
+                        [3u64, 4, 6, 8, 12].iter().flat_map(|t| (0..=2u64).flat_map(move |j| (1..=2u64).map(move |c| (ArrSpec::Sporadic { t: *t, j }, c)))).collect(), supplies(true)));
                 }
             }
         }
